@@ -74,6 +74,10 @@ def true_value(part):
     return part.value
 
 
+class Widget(Part):
+    '''A user subclass of Part (same behaviour).'''
+
+
 class Pallet(Batch):
     '''A user subclass of Batch (same behaviour): what a user PartGenerator typically builds.'''
 
@@ -101,7 +105,7 @@ class HPartGen(PartGenerator):
         q = self.qualities[self._leaf_no % len(self.qualities)]
         v = self.values[self._leaf_no % len(self.values)]
         self._leaf_no += 1
-        p = Part(name=name, value=v, quality=q)
+        p = Widget(name=name, value=v, quality=q)
         self.generated.append(p.id)
         return p
 
